@@ -211,6 +211,10 @@ type pipeEnv struct {
 	names   []string
 	port    int
 	coll    *exec.Cmd
+	// atomic containers sent by the scripts: origin and member count per target/container
+	atomOrigin  map[string]string
+	atomMembers map[string]int
+	atoms       bool
 }
 
 func (e *pipeEnv) genScript(t string) {
@@ -308,6 +312,40 @@ func (e *pipeEnv) genScript(t string) {
 			e.w.Emit(trace.E{"ev": "tsend", "t": t, "k": "upd", "p": full, "val": v.tok, "gval": v.gtok})
 		}
 		pt.script = append(pt.script, &pb.SubscribeResponse{Response: &pb.SubscribeResponse_Update{Update: n}})
+		if r.Intn(6) == 0 {
+			// an atomic container: one notification, the container in the prefix, two or three members;
+			// sent again later with every member re-asserted (the containers have names of their own)
+			cname := fmt.Sprintf("atom%d", r.Intn(2))
+			aorigin := []string{"", "openconfig", "vendor"}[r.Intn(3)]
+			aeff := aorigin
+			if aeff == "" {
+				aeff = "openconfig"
+			}
+			an := &pb.Notification{Timestamp: time.Now().UnixNano() + int64(i), Atomic: true,
+				Prefix: &pb.Path{Origin: aorigin, Elem: []*pb.PathElem{{Name: cname}}}}
+			if prev, ok := e.atomOrigin[t+"/"+cname]; ok && prev != aeff {
+				continue // one origin per container
+			}
+			e.atomOrigin[t+"/"+cname] = aeff
+			var avals []pipeVal
+			for _, m := range []string{"m1", "m2", "m3"}[:2+r.Intn(2)] {
+				if len(an.Update) > 0 && e.atomMembers[t+"/"+cname] == 2 && m == "m3" {
+					break
+				}
+				v := genPipeVal(r)
+				avals = append(avals, v)
+				an.Update = append(an.Update, &pb.Update{Path: &pb.Path{Elem: []*pb.PathElem{{Name: m}}}, Val: v.tv})
+			}
+			if k, ok := e.atomMembers[t+"/"+cname]; ok && k != len(an.Update) {
+				continue // the member set of a container does not change
+			}
+			e.atomMembers[t+"/"+cname] = len(an.Update)
+			for k := range an.Update {
+				e.w.Emit(trace.E{"ev": "tsend", "t": t, "k": "upd", "p": []string{aeff, cname, []string{"m1", "m2", "m3"}[k]}, "val": avals[k].tok, "gval": avals[k].gtok})
+			}
+			e.atoms = true
+			pt.script = append(pt.script, &pb.SubscribeResponse{Response: &pb.SubscribeResponse_Update{Update: an}})
+		}
 	}
 	if r.Intn(2) == 0 {
 		pt.dropAt = 1 + r.Intn(len(pt.script))
@@ -352,7 +390,12 @@ func (e *pipeEnv) startCollector(certFile, keyFile string) error {
 }
 
 func (e *pipeEnv) query(target string, typ client.Type) client.Query {
-	return client.Query{Addrs: []string{fmt.Sprintf("127.0.0.1:%d", e.port)}, Target: target, Queries: []client.Path{{"*"}}, Type: typ,
+	qs := []client.Path{{"*"}}
+	if e.atoms {
+		// overlapping subscription paths: the walk meets the containers twice (coalesced, duplicates reported)
+		qs = append(qs, client.Path{"*", "atom0"}, client.Path{"*", "atom1"})
+	}
+	return client.Query{Addrs: []string{fmt.Sprintf("127.0.0.1:%d", e.port)}, Target: target, Queries: qs, Type: typ,
 		TLS: &tls.Config{InsecureSkipVerify: true}, Timeout: 10 * time.Second}
 }
 
@@ -500,7 +543,7 @@ func parseGroupDisplay(s string) ([]pipeLeaf, bool) {
 
 func pipelineOne(w *trace.Writer, bin, dir string, seed int64) error {
 	r := rand.New(rand.NewSource(seed))
-	e := &pipeEnv{w: w, bin: bin, dir: dir, r: r, targets: map[string]*pipeTarget{}}
+	e := &pipeEnv{w: w, bin: bin, dir: dir, r: r, targets: map[string]*pipeTarget{}, atomOrigin: map[string]string{}, atomMembers: map[string]int{}}
 	certFile, keyFile, cert, err := selfSigned(dir)
 	if err != nil {
 		return err
@@ -548,10 +591,16 @@ func pipelineOne(w *trace.Writer, bin, dir string, seed int64) error {
 	view("lib_once", t0, "typed", lv, ok)
 	// the CLI, three equivalent ways of handing over the same ONCE subscription
 	reqText := fmt.Sprintf(`subscribe: { prefix: { target: %q } mode: ONCE subscription: { path: { elem: { name: "*" } } } }`, t0)
+	qflag := "*"
+	if e.atoms {
+		reqText = fmt.Sprintf(`subscribe: { prefix: { target: %q } mode: ONCE subscription: { path: { elem: { name: "*" } } } `+
+			`subscription: { path: { elem: { name: "*" } elem: { name: "atom0" } } } subscription: { path: { elem: { name: "*" } elem: { name: "atom1" } } } }`, t0)
+		qflag = "*,*/atom0,*/atom1"
+	}
 	pf := filepath.Join(dir, "req.txt")
 	os.WriteFile(pf, []byte(reqText), 0o600)
 	for _, inv := range [][]string{
-		{"cli_flags", "-t", t0, "-q", "*", "-qt", "once", "-dt", "p"},
+		{"cli_flags", "-t", t0, "-q", qflag, "-qt", "once", "-dt", "p"},
 		{"cli_proto", "-proto", reqText, "-dt", "p"},
 		{"cli_proto_file", "-proto_file", pf, "-dt", "p"},
 	} {
@@ -559,7 +608,7 @@ func pipelineOne(w *trace.Writer, bin, dir string, seed int64) error {
 		lv, pok := parseProtoDisplay(outS)
 		view(inv[0], t0, "typed", lv, ok && pok)
 	}
-	outS, ok := e.cli("-t", t0, "-q", "*", "-qt", "once", "-dt", "g")
+	outS, ok := e.cli("-t", t0, "-q", qflag, "-qt", "once", "-dt", "g")
 	gl, pok := parseGroupDisplay(outS)
 	// leaves whose rendering is not compared in the group display are dropped on both sides
 	w.Emit(trace.E{"ev": "view", "who": "cli_flags_group", "scope": t0, "kind": "group", "leaves": gl, "ok": ok && pok})
